@@ -128,6 +128,15 @@ class G:
             v, _ = gens.float_record(self.rng, n, style=self.rng.choice(['gauss', 'sine', 'motion']))
             if v[0] == 0.0:
                 v[0] = 0.75       # an offset record: in-place rebasing of the caller's array would show
+        if self.rng.random() < 0.15:
+            # a record that starts at exactly 0, swings negative first and never repeats a sample: the shape on which
+            # "nothing to clean, nothing to rebase" shortcuts hand the caller's own array to in-place sign flips (seed C05_15)
+            v = np.array(v, dtype=float)
+            v[0] = 0.0
+            v[1] = -abs(v[1]) - 1.0
+            for i in range(2, len(v)):
+                if v[i] == v[i - 1]:
+                    v[i] = v[i - 1] + (1.0 if i % 2 == 0 else -1.0)
         return v
 
     def wrap(self, v):
